@@ -116,7 +116,7 @@ func genBrokenValid(t *rapid.T) *pbsubstreams.Modules {
 	pb := g.PB()
 	i := rapid.IntRange(0, len(pb.Modules)-1).Draw(t, "victim")
 	m := pb.Modules[i]
-	switch rapid.IntRange(0, 18).Draw(t, "break") { // 13..18: nothing broken, the request fields do the work
+	switch rapid.IntRange(0, 22).Draw(t, "break") { // 17..22: nothing broken, the request fields do the work
 	case 0:
 		m.Kind = nil
 	case 1:
@@ -148,6 +148,35 @@ func genBrokenValid(t *rapid.T) *pbsubstreams.Modules {
 		if len(m.Inputs) > 0 {
 			m.Inputs[0] = &pbsubstreams.Module_Input{Input: &pbsubstreams.Module_Input_Store_{Store: &pbsubstreams.Module_Input_Store{ModuleName: "ghost"}}}
 		}
+	case 13: // filter on a real index module (when there is one), query taken from params the module may not have
+		target := pb.Modules[rapid.IntRange(0, len(pb.Modules)-1).Draw(t, "fm")].Name
+		var idx []string
+		for _, o := range pb.Modules {
+			if o.GetKindBlockIndex() != nil && o.Name != m.Name {
+				idx = append(idx, o.Name)
+			}
+		}
+		if len(idx) > 0 {
+			target = rapid.SampledFrom(idx).Draw(t, "fidx")
+		}
+		m.BlockFilter = &pbsubstreams.Module_BlockFilter{Module: target, Query: &pbsubstreams.Module_BlockFilter_QueryFromParams{QueryFromParams: &pbsubstreams.Module_QueryFromParams{}}}
+	case 14: // the params input disappears, whatever refers to it stays
+		var kept []*pbsubstreams.Module_Input
+		for _, in := range m.Inputs {
+			if in.GetParams() == nil {
+				kept = append(kept, in)
+			}
+		}
+		m.Inputs = kept
+		if m.BlockFilter != nil && rapid.Bool().Draw(t, "fromparams") {
+			m.BlockFilter.Query = &pbsubstreams.Module_BlockFilter_QueryFromParams{QueryFromParams: &pbsubstreams.Module_QueryFromParams{}}
+		}
+	case 15: // inputs rotated: params no longer first
+		if len(m.Inputs) > 1 {
+			m.Inputs = append(m.Inputs[1:], m.Inputs[0])
+		}
+	case 16: // a second params input
+		m.Inputs = append(m.Inputs, &pbsubstreams.Module_Input{Input: &pbsubstreams.Module_Input_Params_{Params: &pbsubstreams.Module_Input_Params{Value: "k0"}}})
 	}
 	return pb
 }
